@@ -425,6 +425,8 @@ class Translator:
             return {"True": True, "False": False, "None": None}[name]
         if name in mod.imports:
             tmod, attr = mod.imports[name]
+            if tmod in ("math", "numpy") and attr in ("pi", "e", "inf"):
+                return {"pi": sp.pi, "e": sp.E, "inf": sp.oo}[attr]
             if attr is None or self.repo.by_modname.get(tmod) is None:
                 r = self.repo.resolve_name(mod, name)
                 if r is not None:
@@ -462,6 +464,8 @@ class Translator:
         if n.attr == "dtype":
             return DType(obj)
         if n.attr in ("shape",):
+            if self.hooks.get("allow_shape"):
+                return Opaque("shape")
             raise Unmodelled("shape of symbolic tensor")
         if isinstance(obj, dict) and n.attr in obj:
             return obj[n.attr]
@@ -673,10 +677,14 @@ class Translator:
             return a0 if is_sym(a0) or not isinstance(a0, (int, float)) else num(a0)
         if last == "complex" and len(args) == 2:
             return _s(args[0]) + sp.I * _s(args[1])
+        if last == "broadcast_to":
+            return a0
         if last in ("zeros_like", "zeros"):
             return sp.Integer(0)
         if last in ("ones_like", "ones"):
             return sp.Integer(1)
+        if ("unary:" + last) in self.hooks and len(args) >= 1:
+            return self.hooks["unary:" + last](self, _s(a0))
         if last in UNARY_FUNCS and len(args) >= 1:
             return UNARY_FUNCS[last](_s(a0))
         if last in ("pow", "power") and len(args) == 2:
